@@ -50,7 +50,11 @@ fn cx_fn(ctx: &Ctx, r: &mut Report) {
         ("'a, 'b: 'a", &[], &["'a", "'b"]),
     ];
     // (name, needs generic D, param text, declared bounds, by value, concrete self type, no_deps)
-    let deps: [(&str, bool, &str, &[&str], bool, Option<&str>, bool); 12] = [
+    let deps: [(&str, bool, &str, &[&str], bool, Option<&str>, bool); 16] = [
+        ("ref-impl-relaxed", false, "deps: &(impl A + ?Sized)", &["A"], false, None, false),
+        ("ref-generic-hrtb", true, "deps: &D", &["A", "for < 'h > H < 'h >"], false, None, false),
+        ("concrete-abs", false, "deps: &::abs::App", &[], false, Some(":: abs :: App"), false),
+        ("concrete-tuple", false, "deps: &(A0, B0)", &[], false, Some("(A0 , B0)"), false),
         ("ref-impl-paren", false, "deps: (&impl A)", &["A"], false, None, false),
         ("ref-generic-paren", true, "deps: ((&D))", &["A"], false, None, false),
         ("ref-generic-where", true, "deps: &D", &["A", "B < u8 >"], false, None, false),
@@ -64,7 +68,10 @@ fn cx_fn(ctx: &Ctx, r: &mut Report) {
         ("concrete", false, "deps: &my::App", &[], false, Some("my :: App"), false),
         ("no-deps", false, "", &[], false, None, true),
     ];
-    let params: [&[(&str, &str)]; 14] = [
+    let params: [&[(&str, &str)]; 17] = [
+        &[("x", "impl Into<u8>")],
+        &[("cb", "&dyn Fn(u8) -> u8"), ("s", "&mut String")],
+        &[("v", "&[&str]"), ("(a, _)", "(u8, u8)"), ("r#type", "u8")],
         &[("_", "u8")],
         &[("W(w)", "W")],
         &[("mut f", "u8")],
@@ -80,8 +87,8 @@ fn cx_fn(ctx: &Ctx, r: &mut Report) {
         &[("ref r", "u8"), ("W(f)", "W"), ("q @ 1..=9", "u8")],
         &[("arg0", "u8"), ("_", "u8"), ("self_", "u8")],
     ];
-    let rets: [(&str, &str); 4] = [("", "()"), ("-> i32", "i32"), ("-> Result<u8, E>", "Result < u8 , E >"), ("-> &str", "& str")];
-    let wheres = ["", "T: Send", "T: Send, T: 'static"];
+    let rets: [(&str, &str); 6] = [("", "()"), ("-> i32", "i32"), ("-> Result<u8, E>", "Result < u8 , E >"), ("-> &str", "& str"), ("-> impl Iterator<Item = u8>", "impl Iterator < Item = u8 >"), ("-> Option<Box<dyn Fn() + Send>>", "Option < Box < dyn Fn () + Send > >")];
+    let wheres = ["", "T: Send", "T: Send, T: 'static", "T: Send + Sync"];
     // (option text, mock attr expected, mockable, ?Send, export)
     let opts: [(&str, u8, bool, bool, bool); 8] = [
         ("", 0, false, false, false),
